@@ -70,10 +70,10 @@ def run(cx):
         ob.require(len(hg) == 1 and mentions_field(hg[0][2][0], "connections") and is_param(hg[0][2][1], "peer_id"), "get/map", f"ActivePeersInner::get returns {show(t)}", gb.path)
         rb = cx.coroutine(f"{NI}::rpc")
         ro = Origins(rb)
-        oe = [c for c in rb.calls() if name_matches(c.fn, ("Option::ok_or_else", "Option::ok_or")) and not rb.is_cleanup(c.bb)
-              and (term_has_call(ro.of_operand(c.args[0]), f"{NI}::peer") or term_has_call(ro.of_operand(c.args[0]), f"{CM}::ActivePeers::get"))]
-        tb = [c for c in rb.calls_to("Try::branch") if any(term_has_call(ro.of_operand(c.args[0]), ("Option::ok_or_else", "Option::ok_or")) for _ in (0,))]
-        ob.require(len(oe) == 1 and len(tb) >= 1, "rpc/absent-is-error", "NetworkInner::rpc does not map a missing peer to an error returned with `?`", rb.path)
+        # a peer that is not (or no longer) in the map is an error for the caller - `peer(id).ok_or_else(..)?`, let-else, or match
+        tab = function_cases(prog, rb, lambda t_: "peer" if t_[0] == "call" and name_matches(t_[1], (f"{NI}::peer", f"{CM}::ActivePeers::get")) else None)
+        ob.require(table_lookup(tab, peer="None") == {"Err"}, "rpc/absent-is-error",
+                   f"NetworkInner::rpc does not map a missing peer to an error: cases {sorted((sorted(k), sorted(v)) for k, v in tab.items())}", rb.path)
 
     with cx.ob("C09.2", "R-DROP", "a rejected inbound connection is released: only borrowed before the decision, never cloned, dropped on reject paths, consumed only by handshake") as ob:
         task = cx.coroutine(f"{CM}::ConnectionManager::handle_incoming_task")
@@ -112,7 +112,14 @@ def run(cx):
                    "reject/no-clone", "the accepted connection is cloned in admission (a clone would keep a rejected connection alive)", b.path)
         # on every path to an Err return after the connection exists, the local is dropped
         errs = [i for i, bl in enumerate(b.blocks) if not bl.get("cleanup") for s in bl["s"] if s["k"] == "assign" and s["lhs"] == 0 and s["rv"]["k"] == "agg" and s["rv"].get("variant") == "Err"]
-        ob.floor(errs, 2, "reject sites", exact=True)
+        # (only the Err returns that can happen once the connection exists: a failed `connecting.await` written as an explicit
+        #  `Err(e) => return Err(e)` has no connection to release)
+        ldefs = [d[1] for d in b.defs().get(L, []) if d[0] != "partial"]
+        live = set()
+        for d_ in ldefs:
+            live |= b.reachable_from(d_, succ=b.succ_noawait) | b.reachable_from(d_)
+        errs = [e for e in errs if e in live]
+        ob.floor(errs, 2, "reject sites")
         drops = [i for i, bl in enumerate(b.blocks) if not bl.get("cleanup") and bl["t"]["k"] == "drop" and place_local(bl["t"]["pl"]) == L and not place_proj(bl["t"]["pl"])]
         rets = b.return_blocks()
         for e in errs:
